@@ -1,7 +1,7 @@
 ------------------------------ MODULE AmMem ------------------------------
 (* Property C11: a memory with any number of read and write ports behaves as an array of rows.          *)
 (* State machine over the semantics of AmMemOps: TLC explores, for configuration number Cid of the      *)
-(* model file, every sequence of events                                                                      *)
+(* model file, every sequence of events                                                                 *)
 (*     Edge(D, inp)   the clocks in D rise together while the ports hold the inputs inp                 *)
 (*     TbWrite(i, v)  a testbench writes row i directly (ctx.set(mem.data[i-1], v))                    *)
 (*     TbRead(i)      a testbench reads row i directly (no effect on the state)                         *)
@@ -12,7 +12,7 @@
 (* (harness/props/c11.py, stage tours).                                                                 *)
 (*                                                                                                      *)
 (* Model file (env MODEL_FILE, JSON):  {"configs": [ {"cfg": <configuration, see AmMemOps>,             *)
-(*     "addrs": [...], "datas": [[raw data words of write port j]...], "wens": [[enable masks of j]...], *)
+(*     "addrs": [...], "datas": [[raw data words of write port j]...], "wens": [[enable masks of j]...],*)
 (*     "edges": [D...], "tbvals": [...row values in API form...]} ... ]}                                *)
 (* Inputs of ports that cannot act in an event (their clock does not rise; asynchronous read ports;     *)
 (* disabled ports' address and data) do not influence the state; they are fixed to 0 in the labels and  *)
